@@ -350,6 +350,7 @@ type c07DHCase struct {
 type c07Reader struct {
 	b     []byte
 	chunk int
+	eof   bool // the read delivering the last byte also returns io.EOF (legal for an io.Reader)
 }
 
 func (r *c07Reader) Read(p []byte) (int, error) {
@@ -365,6 +366,9 @@ func (r *c07Reader) Read(p []byte) (int, error) {
 	}
 	copy(p, r.b[:n])
 	r.b = r.b[n:]
+	if r.eof && len(r.b) == 0 {
+		return n, io.EOF
+	}
 	return n, nil
 }
 
@@ -420,7 +424,7 @@ func c07CheckDH(c c07DHCase) h.Result {
 
 	// GenerateKey: the pair is consistent, entropy exhaustion is an error.
 	r.Eval(1)
-	pub, priv, err := x25519.GenerateKey(&c07Reader{b: append([]byte(nil), c.Entropy...), chunk: c.Chunk})
+	pub, priv, err := x25519.GenerateKey(&c07Reader{b: append([]byte(nil), c.Entropy...), chunk: c.Chunk, eof: len(c.Entropy) > 0 && c.Entropy[0]&1 == 1})
 	if len(c.Entropy) < 32 {
 		r.Class("entropy-short")
 		if err == nil {
